@@ -41,6 +41,50 @@ type popScenario struct {
 	VClock   bool      `json:"vclock"`
 	Yield    yieldMode `json:"yield"`
 	AgeFirst bool      `json:"age_first"` // move the clock on before the sweep overflows the table (held buckets become "stale")
+	// HeldPermits (population-held-N cases): permits held per long-running key, 1..N each; nil = N each.
+	HeldPermits []int `json:"held_permits,omitempty"`
+}
+
+// basePopulationHeld: cases population-held-N - a key stays held across an
+// overflow of the bucket table in which nothing is stale, then is taken again.
+const basePopulationHeld = basePopulation + 500_000
+
+// genPopHeldScenario: 1-3 keys are held (1..N permits each) by long-running
+// deliveries, then more than 20 010 other keys are seen within the reap
+// interval (the virtual clock does not move, or moves only before the sweep),
+// then the held keys are taken again while the table is full of fresh keys.
+func genPopHeldScenario(p *prng.R, env instrEnv, i int) popScenario {
+	scopes := []string{scIP, scSrc, scDest}
+	sc := popScenario{Scope: scopes[i%3], VClock: env.vclock}
+	sc.Keys = prng.Pick(p, []int{bucketTableCap + 1, bucketTableCap + 2, bucketTableCap + 3, bucketTableCap + 90, bucketTableCap + 200})
+	n := p.Range(1, 3)
+	sc.Cfg.Dirs = []directive{{Scope: sc.Scope, Kind: "concurrency", N: n}}
+	if p.Chance(1, 4) {
+		// a second, wider concurrency directive in the scope (MultiLimit inside the bucket)
+		sc.Cfg.Dirs = append(sc.Cfg.Dirs, directive{Scope: sc.Scope, Kind: "concurrency", N: n + p.Range(1, 2)})
+	}
+	if p.Chance(1, 3) {
+		sc.Cfg.Dirs = append(sc.Cfg.Dirs, directive{Scope: scAll, Kind: "concurrency", N: p.Range(12, 16)})
+	}
+	if p.Chance(1, 3) {
+		sc.Cfg.Dirs = append(sc.Cfg.Dirs, directive{Scope: scopes[(i+1+p.Intn(2))%3], Kind: "concurrency", N: p.Range(12, 16)})
+	}
+	sc.Text = sc.Cfg.Text()
+	sc.Workers = prng.Pick(p, []int{1, 2, 4})
+	sc.Held = p.Range(1, 3)
+	for k := 0; k < sc.Held; k++ {
+		hp := n
+		if p.Chance(1, 3) {
+			hp = p.Range(1, n)
+		}
+		sc.HeldPermits = append(sc.HeldPermits, hp)
+	}
+	sc.AgeFirst = p.Chance(1, 4)
+	sc.Yield = yieldMode{Kind: "off"}
+	if len(env.sites) > 0 && p.Chance(1, 3) {
+		sc.Yield = yieldMode{Kind: "gosched"}
+	}
+	return sc
 }
 
 func genPopScenario(p *prng.R, env instrEnv, i int) popScenario {
@@ -92,7 +136,23 @@ func runPopulationCases(t *testing.T, r *rep.Reporter, env instrEnv) {
 		idx := basePopulation + i
 		r.Run(idx, fmt.Sprintf("population-%d", i), func(c *rep.Case) {
 			p := prng.New(r.Seed(), uint64(idx), "c11/population")
-			sc := genPopScenario(p, env, i)
+			runPopulationScenario(t, r, c, idx, i, genPopScenario(p, env, i))
+		})
+	}
+	// a key held across an overflow in which nothing is stale (own index range and PRNG stream)
+	n = r.N(6, 90)
+	for i := 0; i < n; i++ {
+		idx := basePopulationHeld + i
+		r.Run(idx, fmt.Sprintf("population-held-%d", i), func(c *rep.Case) {
+			p := prng.New(r.Seed(), uint64(idx), "c11/population-held")
+			runPopulationScenario(t, r, c, idx, i, genPopHeldScenario(p, env, i))
+		})
+	}
+}
+
+func runPopulationScenario(t *testing.T, r *rep.Reporter, c *rep.Case, idx, i int, sc popScenario) {
+	{
+		{
 			g, err := buildGroup(sc.Text)
 			if err != nil {
 				t.Fatalf("case %d: limits.Init(%q): %v", idx, sc.Text, err)
@@ -134,10 +194,14 @@ func runPopulationCases(t *testing.T, r *rep.Reporter, env instrEnv) {
 			heldCnt := make([]int, sc.Held)
 			cr.Guard(func() {
 				for k := 0; k < sc.Held; k++ {
-					for j := 0; j < N; j++ {
+					want := N
+					if k < len(sc.HeldPermits) {
+						want = sc.HeldPermits[k]
+					}
+					for j := 0; j < want; j++ {
 						if err := mustTake(func(ctx context.Context) error { return ops.take(ctx, k) }); err != nil {
 							c.Violation("quiescent/fewer-than-limit-grantable/scope="+sc.Scope+"/via=population",
-								fmt.Sprintf("fresh group: only %d of %d permits of key %q could be acquired (%v)", j, N, ops.name(k), err),
+								fmt.Sprintf("fresh group: only %d of %d permits of key %q could be acquired (%v)", j, want, ops.name(k), err),
 								map[string]any{"scenario": sc})
 							return
 						}
@@ -180,6 +244,51 @@ func runPopulationCases(t *testing.T, r *rep.Reporter, env instrEnv) {
 				return
 			}
 			cr.Report(c, "population", sc)
+
+			// The held keys are taken again right after the sweep, i.e. (Keys beyond the
+			// capacity) while the table is full of keys used within the reap interval and
+			// nothing can be dropped. Whatever the limiter does with a full table - refuse,
+			// wait - a key may never have more than N holders: every grant is a holder (it
+			// is released with the others below), attempts go on until one is refused or
+			// the count is above N.
+			tableFull := sc.Held > 0 && sc.Keys > bucketTableCap
+			if !cr.Any() {
+				cr.Guard(func() {
+					for k := 0; k < sc.Held; k++ {
+						for heldCnt[k] <= N {
+							if tableFull {
+								r.Count("population_held_key_retaken_while_table_full", 1)
+							}
+							// (a grant below N is legitimate and so is a refusal by a full table; above N the inside monitor fires)
+							if !wronglyGranted(func(ctx context.Context) error { return ops.take(ctx, k) }) {
+								break
+							}
+							heldCnt[k]++
+							mon.Enter(scopeKey{sc.Scope, ops.name(k)})
+						}
+					}
+				})
+				// The same for a key that has never been seen: whatever bucket (or substitute
+				// for one) a full table hands out, N+1 acquisitions without a release in
+				// between may not all be granted.
+				cr.Guard(func() {
+					k, got := sc.Keys+10, 0
+					for ; got <= N; got++ {
+						if !wronglyGranted(func(ctx context.Context) error { return ops.take(ctx, k) }) {
+							break
+						}
+						mon.Enter(scopeKey{sc.Scope, ops.name(k)})
+					}
+					if sc.Keys > bucketTableCap {
+						r.Count("population_new_key_filled_while_table_full", 1)
+					}
+					for ; got > 0; got-- {
+						mon.Leave(scopeKey{sc.Scope, ops.name(k)})
+						ops.release(k)
+					}
+				})
+				cr.Report(c, "population", sc)
+			}
 
 			// Move the clock past the reap interval and touch new keys so that the
 			// table is reaped while the long-running deliveries still hold their keys.
@@ -271,6 +380,6 @@ func runPopulationCases(t *testing.T, r *rep.Reporter, env instrEnv) {
 			}
 			shape := fmt.Sprintf("population scope=%s size=%s n=%d held=%d w=%d age=%v vclock=%v cfg=%s", sc.Scope, class, N, sc.Held, sc.Workers, sc.AgeFirst, sc.VClock, sc.Cfg.Shape())
 			c.Done(shape, class != "below" || probed)
-		})
+		}
 	}
 }
